@@ -158,7 +158,7 @@ fn run_field_form(mode: Mode, version: u8, size: Size, specs: &[Spec], form: &Fo
     let mut refpic = entropy_reference(mode, version, size, 0);
     if mode == Mode::Standard {
         refpic.hdr.plus = form.ref_plus;
-        refpic.hdr.umv = form.ref_umv;
+        refpic.hdr.umv = form.ref_umv && crate::gen_pic::optional_modes_accepted().0;
     }
     let mut st = H263State::new(options_scal(mode, specs.len() % 2 == 1 || version == 1));
     match decode_bytes(&mut st, &encode_pic(&refpic)) {
